@@ -384,6 +384,8 @@ pub struct Hist {
     pub skipped_ops: u32,
     /// indices into `atts`: local attachments made after their scope was full (may be omitted)
     pub overflow_atts: HashSet<usize>,
+    /// empty report() calls of idle cycles (not recorded as batches)
+    pub idle_reports: u64,
     pub executed_ops: u32,
     /// shapes excluded by construction because of a known finding
     pub excluded: BTreeMap<&'static str, u32>,
